@@ -38,7 +38,10 @@ def BOUNDS(tier):
 
 
 def jobs(tier):
-    return [dict(j, tier=tier) for j in _jobs(tier)]
+    js = [dict(j, tier=tier) for j in _jobs(tier)]
+    js = common.shard(js, "cutreq", 4, lambda j: len(j["pipe"]) == 3)
+    js = common.shard(js, "strict", 2, lambda j: len(j["pipe"]) == 3)
+    return js
 
 
 def _jobs(tier):
